@@ -277,6 +277,15 @@ func (fr *Frame) staticCall(callee *ssa.Function, free []Val, args []Val, st *St
 		lock := c.ghostCell(st, "hdf5lock")
 		// calls that create or modify objects in a file
 		writer := name == "CreateFile" || name == "CreateGroup" || strings.HasPrefix(name, "CreateDataset") || name == "Write" || name == "WriteSubset"
+		if name == "Write" || name == "WriteSubset" {
+			// ghost.hdf5datawrites counts the calls that write element data into a dataset
+			cur := c.ghostCell(st, "hdf5datawrites")
+			c.setCell(st, "ghost.hdf5datawrites", c.def("gw", ite(st.reach, addInt(cur, intLit(1)), cur)))
+		}
+		if strings.HasPrefix(name, "CreateDataset") {
+			cur := c.ghostCell(st, "hdf5created")
+			c.setCell(st, "ghost.hdf5created", c.def("gc", ite(st.reach, addInt(cur, intLit(1)), cur)))
+		}
 		if writer {
 			c.oblige(st, "lock", "C08.lock-held-exclusively", []string{"C08"}, eq(lock, intLit(2)), pos, "call of hdf5."+name+" (creates or writes) while holding the package lock exclusively")
 		} else {
@@ -398,6 +407,16 @@ func (fr *Frame) callByContract(fc *FuncContract, sig *types.Signature, srcNames
 		c.oblige(st, "pre@call", cl.Label, cl.Props, g, pos, fmt.Sprintf("precondition of %s: %s", what, cl.Src))
 	}
 	pre := st.clone()
+	// a callee whose postcondition speaks of objects it allocated (fresh(x)):
+	// its allocations lie between the counter before and after the call
+	for _, cl := range fc.Clauses {
+		if cl.Kind == "ensures" && strings.Contains(cl.Src, "fresh(") {
+			na := c.fresh("alloc", SInt)
+			c.emit(fmt.Sprintf("(assert (>= %s %s))", na.S, st.alloc.S))
+			st.alloc = na
+			break
+		}
+	}
 	// frame
 	if !fc.HasAssigns {
 		c.note("contract of " + what + " has no assigns clause: treated as assigning nothing")
@@ -818,6 +837,10 @@ func (fr *Frame) ndInvoke(recv IfaceV, rt types.Type, m *types.Func, args []Val,
 	c := fr.c
 	name := m.Name()
 	fc := c.cs.Ifaces[name]
+	if c.fc != nil && c.fc.RowMajor {
+		// general-rank interface model: element j (row-major) of x is x.at(j), its extents are x.shape
+		fc = c.cs.Ifaces["rowmajor:"+name]
+	}
 	if fc == nil {
 		panic(vcErr("no interface contract for ND method %s", name))
 	}
